@@ -1,5 +1,5 @@
 import Driver.Util
-import NixModel.Store.Api
+import NixModel.Store.Step
 open Lean Nix.Store
 
 /-! Line-protocol driver of the structural (HDF5 graph) model; shared by C02 C03 C04 C05 C12 C20. -/
@@ -97,7 +97,7 @@ def applyG (g : Graph) (r : Except Nix.Err Graph) : Graph × Json :=
 
 def step (g : Graph) (j : Json) : Graph × Json :=
   match (jArr j).toList with
-  | [.str "reset"] => ({}, ok Json.null)
+  | [.str "reset"] => (init, ok Json.null)
   | [.str "noop"] => (g, ok Json.null)
   | [.str "create_block", nm, .str ty] =>
     match parseName g nm with
@@ -183,6 +183,6 @@ def step (g : Graph) (j : Json) : Graph × Json :=
   | [.str "dump"] => (g, ok (dumpFrom g))
   | _ => (g, bad "store: unknown op")
 
-def main : IO Unit := loop ({} : Graph) step
+def main : IO Unit := loop init step
 
 end Driver.Store
